@@ -173,7 +173,14 @@ func runC17(c *Ctx) {
 		// the queried name: inside the zone, or outside (unrelated, or sharing only a text suffix)
 		var name [][]byte
 		inZone := true
-		switch r.Intn(5) {
+		switch r.Intn(6) {
+		case 5: // a label that ends in a dot octet and the zone's first label: the text ends in ".<zone>", the labels do not
+			first := append(append(append([]byte{}, genLabel(r, 2, 0)...), '.'), zone[0]...)
+			if len(first) > 63 {
+				first = first[len(first)-63:]
+			}
+			name = append([][]byte{first}, zone[1:]...)
+			inZone = commonSuffix(zone, name) == len(zone)
 		case 0:
 			name = zone
 		case 1, 2:
